@@ -521,6 +521,15 @@ impl XType {
                 }
                 Self::Compound(*ct, spec.clone(), new_bind).into()
             },
+            Self::XCallable(spec) => Self::XCallable(XCallableSpec {
+                param_types: spec
+                    .param_types
+                    .iter()
+                    .map(|t| t.resolve_bind(bind, tail))
+                    .collect(),
+                return_type: spec.return_type.resolve_bind(bind, tail),
+            })
+            .into(),
             _ => self.clone(),
         }
     }
